@@ -243,7 +243,7 @@ func c19(c *Ctx) {
 		f := ir.NewFile()
 		var inc []string
 		for j := 0; j < rng.Intn(3); j++ {
-			inc = append(inc, Pick(rng, []string{"textflag.h", "funcdata.h", "go_asm.h", "textflag.h "}))
+			inc = append(inc, Pick(rng, []string{"textflag.h", "funcdata.h", "go_asm.h", "textflag.h ", "asm/textflag.h", "../include/textflag.h", "mytextflag.h", "textflag.h.in", "TEXTFLAG.H"}))
 		}
 		f.Includes = append([]string(nil), inc...)
 		var attrs []uint64
